@@ -238,6 +238,48 @@ def gen_exclusion_query(rng, world, view):
     return q
 
 
+def gen_subtree_query(rng, world, view):
+    """three suffixed groups aimed at a provider X and two providers Y, Z
+    below it in DIFFERENT branches, with a wide same_subtree constraint over
+    all three and - often - a narrower one over two of them (which the wide
+    one does not imply: siblings are not in one another's subtree)"""
+    v = rng.choice([36, 36, 38, 39, 39])
+    q = {'version': v, 'groups': {}, 'group_policy': rng.choice(
+        ['none', 'none', 'isolate']), 'root_required': set(),
+        'root_forbidden': set(), 'same_subtree': [], 'limit': None}
+    kids = {}
+    for u in view.rps:
+        if view.parent[u]:
+            kids.setdefault(view.parent[u], []).append(u)
+    cands = []
+    for x, ks in kids.items():
+        if len(ks) >= 2:
+            cands.append((x, ks))
+    if not cands:
+        return gen_exclusion_query(rng, world, view)
+    x, ks = rng.choice(cands)
+    y, z = rng.sample(ks, 2)
+    if rng.random() < 0.3 and kids.get(y):
+        z = rng.choice(kids[y])           # a chain instead of siblings
+    names = ['_A', '_B', '_C']
+    for name, p in zip(names, (x, y, z)):
+        g = new_group()
+        r = fitting_resources(rng, view, p, 1)
+        if r:
+            g['resources'] = r
+        else:
+            ts = sorted(view.traits[p] - {TRAITS[0]})
+            if not ts:
+                g['resources'] = gen_resources(rng, world.classes, 1)
+            else:
+                g['required'] = [{rng.choice(ts)}]
+        q['groups'][name] = g
+    q['same_subtree'].append(set(names))
+    if rng.random() < 0.7:
+        q['same_subtree'].append(set(rng.sample(names, 2)))
+    return q
+
+
 def _gen_ac_query(rng, world, version=None):
     v = version if version is not None else rng.choice(AC_VERSIONS)
     q = {'version': v, 'groups': {}, 'group_policy': None,
@@ -292,8 +334,12 @@ def _gen_ac_query(rng, world, version=None):
             suffixes.append(s)
             members.add(s)
         q['same_subtree'].append(members)
-        if len(suffixes) >= 3 and rng.random() < 0.3:
-            q['same_subtree'].append(set(rng.sample(suffixes, 2)))
+        if len(suffixes) >= 3 and rng.random() < 0.5:
+            # a second constraint, often a strict subset of the first (the
+            # narrower one is NOT implied by the wider one)
+            pool = sorted(members) if len(members) >= 3 and \
+                rng.random() < 0.7 else suffixes
+            q['same_subtree'].append(set(rng.sample(pool, 2)))
     n_same_provider = len([s for s in q['groups'] if s])
     if n_same_provider > 1:
         q['group_policy'] = rng.choice(['none', 'isolate', 'none'])
